@@ -325,7 +325,8 @@ def main(argv):
             cfgs = (a.configs.split(",") if a.configs else ALL_CONFIGS)
             per, nbin = int(400000 * a.scale), int(200000 * a.scale)
         exes = build_many(cfgs)
-        m = run_rounds(1 if a.tier == "quick" else 2, "c12", "gen", (names, per // NCPU + 1, nbin // NCPU + 1), [(c, exes[c]) for c in cfgs], a.seed)
+        m = run_rounds(1 if a.tier == "quick" else 2, "c12", "gen", (names, per // NCPU + 1, nbin // NCPU + 1), [(c, exes[c]) for c in cfgs], a.seed,
+                       split=1 if a.tier == "quick" else 3, count_idx=(1, 2))
         rep.merge(m)
         rep.require("div:by-zero", "div:by-zero-nontrivial", "div:operand>=q", "div:divisor<=64bits", "div:shares-top33-with-q",
                     "legendre:0", "legendre:1", "legendre:-1", "sqrt:square", "sqrt:nonsquare", "sqrt:zero", "sqrt_ext:nonsquare",
